@@ -124,7 +124,11 @@ func TestVerif_C03(t *testing.T) {
 	tr.Reset(kit.E{"src": "shapes"})
 	for _, s := range kit.LoadShapes("shapes", "speedsrv", "speedcli") {
 		if s.Dec == "speedsrv" {
+			t0 := time.Now()
 			c03SrvShape(tr, s)
+			if d := time.Since(t0); d > 500*time.Millisecond {
+				t.Logf("slow server shape (%v): %v", d, s.Sh)
+			}
 			continue
 		}
 		var b []byte
@@ -174,8 +178,12 @@ func TestVerif_C03(t *testing.T) {
 			if _, err := srv.Write(script); err != nil {
 				return
 			}
+			// from here on the scripted server never waits long for the client: a client that is blocked in the
+			// other direction would otherwise hang until the pipe deadline (a hang is not what C03 is about)
+			_ = srv.SetDeadline(time.Now().Add(60 * time.Millisecond))
 			if upload {
 				_, _ = io.CopyN(io.Discard, srv, int64(extra))
+				_ = srv.SetDeadline(time.Now().Add(60 * time.Millisecond))
 				_, _ = srv.Write(summary)
 			} else {
 				_, _ = srv.Write(make([]byte, extra))
@@ -183,6 +191,7 @@ func TestVerif_C03(t *testing.T) {
 		}()
 		c := &Client{Conn: cli}
 		cb := func(time.Duration, uint64, bool) {}
+		t0 := time.Now()
 		tr.Dec("speedclient", "any", fmt.Sprintf("upload=%v size=%d extra=%d script=%d", upload, size, extra, len(script)), func() bool {
 			if upload {
 				return c.Upload(size, 0, cb) == nil
@@ -190,6 +199,9 @@ func TestVerif_C03(t *testing.T) {
 			return c.Download(size, 0, cb) == nil
 		})
 		_ = cli.Close()
+		if d := time.Since(t0); d > 500*time.Millisecond {
+			t.Logf("slow client case %d (%v)", i, d)
+		}
 	}
 	t.Logf("events=%d", tr.Count())
 }
